@@ -4,6 +4,7 @@ from . import errors as E
 from . import helpers_rules as H
 
 META = {
+    'claim_added': "Also decided: which node a class-recognition error cites (missing key / not a mapping: the node itself; wrong attribute: its key node), path-sensitively; set_value keeps the replaced node's marks; format_rec_error collects every leaf; recognition keeps no state between nodes; cited marks come from locals of the activation, not from shared fields or post-hook nodes.",
     'level': 'other',
     'technique': 'static: inductive "positioned message" predicate over string construction (format/concatenation/f-string parts, '
                  'locals by reaching definitions, caught RecognitionError, format_rec_error) applied to every raise and every error '
